@@ -34,16 +34,30 @@ Proof. induction l as [|a l IH]; [reflexivity|]. destruct l; [reflexivity|]. exa
 Lemma removelast_map {A B} (f : A -> B) l : removelast (map f l) = map f (removelast l).
 Proof. induction l as [|a l IH]; [reflexivity|]. destruct l; [reflexivity|]. cbn [map removelast] in *. rewrite IH. reflexivity. Qed.
 
+Lemma tail_swap_map {A B} (f : A -> B) (l : list A) :
+  match map f l with [] => [] | x :: _ => last (map f l) x :: removelast (map f l) end
+  = map f (match l with [] => [] | x :: _ => last l x :: removelast l end).
+Proof.
+  destruct l as [|x l']; [reflexivity|].
+  change (map f (x :: l')) with (f x :: map f l') at 1. cbv iota.
+  rewrite last_map, removelast_map. reflexivity.
+Qed.
+
 Lemma swap_remove_map {K D} keqb (key : D -> K) (nf : D -> D) k l :
   (forall d, key (nf d) = key d) ->
   swap_remove keqb key k (map nf l) =
     match swap_remove keqb key k l with Some (d, r) => Some (nf d, map nf r) | None => None end.
 Proof.
-  intros Hk. induction l as [|d l IH]; [reflexivity|]. cbn [map swap_remove]. rewrite Hk.
-  destruct (keqb k (key d)).
-  - f_equal. f_equal. destruct l as [|x l']; [reflexivity|].
-    change (map nf (x :: l')) with (nf x :: map nf l').
-    change (nf x :: map nf l') with (map nf (x :: l')). rewrite last_map, removelast_map. reflexivity.
+  intros Hk. induction l as [|d l IH]; [reflexivity|].
+  change (map nf (d :: l)) with (nf d :: map nf l).
+  change (swap_remove keqb key k (nf d :: map nf l)) with
+    (if keqb k (key (nf d)) then Some (nf d, match map nf l with [] => [] | x :: _ => last (map nf l) x :: removelast (map nf l) end)
+     else match swap_remove keqb key k (map nf l) with Some (d', r) => Some (d', nf d :: r) | None => None end).
+  change (swap_remove keqb key k (d :: l)) with
+    (if keqb k (key d) then Some (d, match l with [] => [] | x :: _ => last l x :: removelast l end)
+     else match swap_remove keqb key k l with Some (d', r) => Some (d', d :: r) | None => None end).
+  rewrite Hk. destruct (keqb k (key d)).
+  - rewrite tail_swap_map. reflexivity.
   - rewrite IH. destruct (swap_remove keqb key k l) as [[d' r]|]; reflexivity.
 Qed.
 
@@ -130,7 +144,7 @@ Qed.
 
 Lemma set_nth_same {A} (i : nat) (l : list A) (x d : A) : nth i l d = x -> (i < length l)%nat -> set_nth i l x = l.
 Proof.
-  revert i. induction l as [|y l IH]; intros i Hn Hl; [reflexivity|]. destruct i as [|i]; cbn [nth set_nth length] in *.
+  revert i. induction l as [|y l IH]; intros i Hn Hl; [destruct i; reflexivity|]. destruct i as [|i]; cbn [nth set_nth length] in *.
   - congruence.
   - rewrite (IH i Hn); [reflexivity|lia].
 Qed.
@@ -150,7 +164,7 @@ Definition nonempty_class (c : cdiff) : bool :=
   act_all nonnil (cd_info c) && act_all nonnil (cd_doc c) && forallb nonempty_field (cd_fields c)
   && forallb nonempty_meth (cd_methods c).
 (* no action of the diff mentions an empty string (names never are; comments may be: F4) *)
-Definition nonempty_diff (d : mdiffs) : bool := forallb nonempty_class (d_classes d).
+Definition nonempty_diff (d : mdiffs) : bool := act_all nonnil (d_doc d) && forallb nonempty_class (d_classes d).
 
 Lemma chg_same_param n tns : chg_same (Lparam n tns).
 Proof.
@@ -223,11 +237,12 @@ Qed.
 Theorem apply_norm d t nsname r :
   nonempty_diff d = true -> apply_to d t nsname = Ok r -> apply_to (norm d) t nsname = Ok r.
 Proof.
-  intros Hn H. unfold apply_to in *. destruct (index_of nsname (ms_ns t)) as [tns|]; [|discriminate].
+  unfold nonempty_diff. rewrite andb_true_iff. intros [Hnd Hn] H.
+  unfold apply_to in *. destruct (index_of nsname (ms_ns t)) as [tns|]; [|discriminate].
   unfold apply_at in *. cbv zeta in *. cbn [norm d_info d_doc d_classes].
   apply bind_ok in H. destruct H as (ns' & Ens & H). apply bind_ok in H. destruct H as (doc & Edoc & H).
   apply bind_ok in H. destruct H as (cs & Ecs & [= <-]).
-  rewrite Ens. cbn [bind]. rewrite Edoc. cbn [bind].
+  rewrite Ens. cbn [bind]. rewrite (doc_apply_norm _ _ _ Hnd Edoc). cbn [bind].
   change (apply_classes (length (ms_ns t)) tns) with (apply_map_L (Lclass (length (ms_ns t)) tns)) in *.
   rewrite (apply_map_norm (Lclass (length (ms_ns t)) tns) norm_class (fun _ => eq_refl) (fun _ => eq_refl) (chg_same_class _ tns) _ _ _
              (forallb_Forall' _ _ _ (norm_ok_class _ tns) Hn) Ecs).
